@@ -52,6 +52,7 @@ ASSUMPTIONS = [
 ]
 MIN_COUNTERS = {
     "dict_code_cases": {"quick": 4000, "thorough": 20000},
+    "inject_cases": {"quick": 5000, "thorough": 5000},
     # unchanged tree: quick ~230 k returned / ~228 k walked / ~460 k audit events; thorough ~3.7 M / 3.7 M / 7.4 M
     "transpile_returned": {"quick": 40000, "thorough": 600000},
     "walked": {"quick": 40000, "thorough": 600000},
@@ -85,6 +86,10 @@ def units(tier, seed):
     # attribute dot, call/assignment punctuation, non-ASCII and NFKC-foldable letters
     for pos in P.C18_NAME_POSITIONS:
         u.append({"kind": "positions", "positions": [pos], "wrapper": "top", "maxlen": 3, "ext": True})
+    # classic break-out payloads: a short prefix of quote / escape characters, then a tail that would
+    # complete a Python statement and comment out the rest
+    for pos in P.C18_POSITION_ORDER:
+        u.append({"kind": "inject", "position": pos})
     # dictionary codes inside string literals: decompressed *words* are program-chosen text too
     u.append({"kind": "dict", "part": "single"})
     for first in range(16):
@@ -521,6 +526,8 @@ def run_unit(unit):
         _run_raw(unit, m, res)
     elif k == "dict":
         _run_dict(unit, m, res)
+    elif k == "inject":
+        _run_inject(unit, m, res)
     elif k == "random":
         _run_random(unit, m, res)
     elif k == "single":
@@ -638,6 +645,35 @@ def _run_positions(unit, m, res):
     res["counters"]["position_cases"] = res["counters"].get("transpile_calls", 0)
     res["samples"].append({"position": unit["positions"][0], "wrapper": unit["wrapper"], "ext_alphabet": bool(unit.get("ext")),
                            "program": P.c18_program(unit["positions"][0], unit["wrapper"], alphabet[0] + alphabet[13] + alphabet[5])})
+
+
+BACKSLASH, DQ, SQ, NL, CR, BQ = chr(92), chr(34), chr(39), chr(10), chr(13), chr(96)
+
+
+def _run_inject(unit, m, res):
+    import itertools
+
+    rep = _single(unit)
+    mk = sorted(m.markers)
+    q = mk[0] if mk else "Q"
+    tails = [");" + q + "#", ")#", ";" + q + "#", "+" + q + "#", NL + q + "#", ")" + NL + q + "(", "]" + q + "#",
+             "=" + q + "#", "." + q + "#", "," + q + ")#", ":" + q + "#", " " + q + "#"]
+    breakers = [DQ, SQ, BACKSLASH, NL, BQ, CR]
+    prefixes = [""] + breakers + ["".join(t) for t in itertools.product(breakers, repeat=2)] + \
+               [BACKSLASH * 2 + DQ, DQ * 3, SQ * 3, BACKSLASH + DQ + BACKSLASH]
+    pos = unit["position"]
+    c = res["counters"]
+    for pre in prefixes:
+        for tail in tails:
+            payload = pre + tail
+            for wrapper in ("top", "for-if"):
+                if wrapper not in P.C18_WRAPPERS:
+                    continue
+                prog = P.c18_program(pos, wrapper, payload)
+                run_program(prog, m, res, rep, "inject:" + pos)
+                c["inject_cases"] = c.get("inject_cases", 0) + 1
+    res["distinct"] += len(prefixes) * len(tails)
+    res["samples"].append({"inject_program": P.c18_program(pos, "top", BACKSLASH + DQ + tails[0])})
 
 
 def _run_dict(unit, m, res):
